@@ -262,6 +262,10 @@ func (pl *LowNodeLoad) processOneNodePool(ctx context.Context, nodePool *desched
 	for _, v := range sourceNodes {
 		processedNodes.Insert(v.node.Name)
 	}
+	// the prod pass evicts as well, later pools must not balance these nodes again on the same metrics
+	for _, v := range prodHighNodes {
+		processedNodes.Insert(v.node.Name)
+	}
 	return nil
 }
 
